@@ -81,7 +81,10 @@ func main() {
 
 		if len(t) > 0 {
 			n := t[0]
-			node.ByteCode(n, cr)
+			if err := node.Compile(n, cr, false); err != nil {
+				fmt.Println(err)
+				return
+			}
 			if v, err := virtM.Run(true); err == nil {
 				fmt.Println(v)
 			}
